@@ -28,7 +28,7 @@ pub fn families(tier: Tier) -> Vec<Family> {
     v.push(Family {
         name: "full",
         letters: vec![CO, CE, CI, CX, RO, RE, WI, CL, WT, H],
-        depth: tier.pick(4, 5),
+        depth: tier.pick(3, 4),
         sizes: if q { vec![CAP + 1] } else { vec![1, CAP + 1] },
         chunks: vec![4096],
         wlens: if q { vec![2 * CAP] } else { vec![4096, 2 * CAP] },
@@ -40,7 +40,7 @@ pub fn families(tier: Tier) -> Vec<Family> {
     v.push(Family {
         name: "out",
         letters: vec![CO, RO, H, CX],
-        depth: tier.pick(4, 6),
+        depth: tier.pick(3, 5),
         max_child_writes: tier.pick(1, 2),
         ..base.clone()
     });
@@ -48,7 +48,7 @@ pub fn families(tier: Tier) -> Vec<Family> {
     v.push(Family {
         name: "outerr",
         letters: vec![CO, CE, RO, RE, H],
-        depth: tier.pick(4, 6),
+        depth: tier.pick(4, 5),
         sizes: if q { vec![CAP + 1] } else { vec![1, CAP + 1] },
         chunks: vec![CAP],
         max_polls: 2,
@@ -58,8 +58,8 @@ pub fn families(tier: Tier) -> Vec<Family> {
     v.push(Family {
         name: "in",
         letters: vec![WI, CI, H, CL],
-        depth: tier.pick(4, 6),
-        wlens: if q { vec![1, 4096, CAP + 1, 2 * CAP] } else { base.wlens.clone() },
+        depth: tier.pick(3, 5),
+        wlens: if q { vec![4096, CAP + 1, 2 * CAP] } else { base.wlens.clone() },
         rlens: if q { vec![1, 4 * CAP] } else { vec![1, CAP, 4 * CAP] },
         ..base.clone()
     });
@@ -67,7 +67,7 @@ pub fn families(tier: Tier) -> Vec<Family> {
     v.push(Family {
         name: "duplex",
         letters: vec![CO, WI, RO, CI, H],
-        depth: tier.pick(5, 7),
+        depth: tier.pick(4, 6),
         sizes: if q { vec![2 * CAP] } else { vec![CAP + 1, 2 * CAP] },
         chunks: vec![CAP],
         wlens: if q { vec![2 * CAP] } else { vec![CAP, 2 * CAP] },
@@ -80,7 +80,7 @@ pub fn families(tier: Tier) -> Vec<Family> {
     v.push(Family {
         name: "status",
         letters: vec![CO, CX, RO, WT, H],
-        depth: tier.pick(4, 6),
+        depth: tier.pick(3, 5),
         sizes: if q { vec![CAP + 1] } else { vec![1, CAP + 1] },
         chunks: vec![CAP],
         modes: EXIT_MODES.to_vec(),
@@ -91,9 +91,9 @@ pub fn families(tier: Tier) -> Vec<Family> {
     v.push(Family {
         name: "output",
         letters: vec![CO, CE, CX, WO, H],
-        depth: tier.pick(4, 6),
-        sizes: if q { vec![2 * CAP] } else { sizes.clone() },
-        modes: if q { vec![ExitMode::Code(1), ExitMode::Signal(libc::SIGKILL)] } else { EXIT_MODES.to_vec() },
+        depth: tier.pick(3, 5),
+        sizes: if q { vec![2 * CAP] } else { vec![1, CAP, 2 * CAP] },
+        modes: if q { vec![ExitMode::Code(1), ExitMode::Signal(libc::SIGKILL)] } else { vec![ExitMode::Code(0), ExitMode::Code(255), ExitMode::Signal(libc::SIGTERM)] },
         max_polls: tier.pick(2, 3),
         output: true,
         ..base.clone()
@@ -102,7 +102,7 @@ pub fn families(tier: Tier) -> Vec<Family> {
     v.push(Family {
         name: "managed",
         letters: vec![CO, RO, H, CX],
-        depth: tier.pick(3, 5),
+        depth: tier.pick(3, 4),
         sizes: vec![1, CAP + 1],
         chunks: vec![4096],
         managed: true,
